@@ -88,6 +88,18 @@ FAMILIES = {
               ("Gen_Genesis", "Gen_Genesis.cfg", "bfs", {"quick": dict(depth=1, consts={}), "thorough": dict(depth=1, consts={})}),
               ("Gen_Pass", "Gen_Pass.cfg", "bfs", {"quick": dict(depth=1, consts={}), "thorough": dict(depth=1, consts={})})],
         replays=[dict(mode="app", controls="", swap=False, extra=["-digests"], repeat={"quick": 2, "thorough": 4})]),
+    "FEESBIG": dict(
+        mc=("MC_FeesBig", "MC_FeesBig.cfg", {"quick": {"Ks": "{31, 32, 63, 64, 65, 128, 255, 256}"}, "thorough": {"Ks": "0..256"}}),
+        shards={"quick": [{}], "thorough": [{"Ks": "%d..%d" % (a, min(a + 31, 256))} for a in range(0, 257, 32)]},
+        gens=[("Gen_FeesBig", "Gen_FeesBig.cfg", "bfs", {"quick": dict(depth=1, consts={"Ks": "{31, 32, 63, 64, 65, 128, 255, 256}"}), "thorough": dict(depth=1, consts={})})],
+        replays=[dict(mode="app", controls="", swap=False)]),
+    "AUTHMOD": dict(   # the same admin alphabet on a chain whose authority is a MODULE account (gov)
+        mc=("MC_Pause", "MC_Pause.cfg", {"quick": {"PauseSet": '"small"'}, "thorough": {"PauseSet": '"small"'}}),
+        gens=[("Gen_Pause", "Gen_Pause.cfg", "bfs", {"quick": dict(depth=1, consts={"GenSet": '"full"', "PauseSet": '"full"'}),
+                                                   "thorough": dict(depth=2, consts={"GenSet": '"small"', "PauseSet": '"small"'})}),
+              ("Gen_Pause", "Gen_Pause.cfg", "sim", {"quick": dict(num=100, depth=10, consts={"GenSet": '"full"', "PauseSet": '"full"'}, seeds=1),
+                                                   "thorough": dict(num=1000, depth=20, consts={"GenSet": '"full"', "PauseSet": '"full"'}, seeds=2)})],
+        replays=[dict(mode="instrauth", controls="", swap=False)]),
     "DUST": dict(
         mc=("MC_Dust", "MC_Dust.cfg", {"quick": {"MaxDepth": "3"}, "thorough": {"MaxDepth": "4"}}),
         gens=[("Gen_Dust", "Gen_Dust.cfg", "bfs", {"quick": dict(depth=3, consts={}), "thorough": dict(depth=4, consts={})})],
@@ -105,7 +117,7 @@ FAMILIES = {
 PROPS = {
     "C01": dict(families=["FUNDS"], groups=["ack", "bal"], level="model_checking",
                 rule="a step is non-trivial for C01 when it is a packet reception; distinct = distinct (abstract pre-state, abstract input)"),
-    "C02": dict(families=["FUNDS"], groups=["bal", "supply"], level="model_checking",
+    "C02": dict(families=["FUNDS", "FEESBIG"], groups=["bal", "supply"], level="model_checking",
                 rule="non-trivial = a successful orbiter transfer (success acknowledgement); distinct = distinct (abstract pre-state, abstract input)"),
     "C11": dict(families=["DUST", "FUNDS"], groups=["ack", "bal", "stats"], level="model_checking",
                 rule="non-trivial = an orbiter packet received while the orbiter account holds coins, with the paired control run on the emptied account executed; distinct = distinct (pre-state, input)"),
@@ -131,7 +143,7 @@ PROPS = {
                 rule="one evaluation = one complete query walk (all pages) or one direct lookup against the ledger observed in the same step; non-trivial = every query step; distinct = distinct (ledger, query)"),
     "C19": dict(families=["DET"], groups=[], level="exploration",
                 rule="the same generated histories (random FUNDS and PAUSE histories, the parse-mutation grid, the request grid, the genesis-document grid, the pass-through grid) replayed in R independent OS processes (R=2 quick, 4 thorough; different GOMAXPROCS/GC settings, Go randomises map iteration per process); per step a digest of acknowledgement bytes, ordered events, exported orbiter state, full bank export and all-store hash; non-trivial = a step with peer digests; distinct = distinct (pre-state, input); error-branch coverage of the specification by the replayed steps is reported"),
-    "C04": dict(families=["FEES"], groups=["ack", "bal"], level="model_checking", exhaustive=True,
+    "C04": dict(families=["FEES", "FEESBIG"], groups=["ack", "bal"], level="model_checking", exhaustive=True,
                 rule="every grid point (amount x fee-entry list) is one packet through the real application; non-trivial = the payload carries a fee action that parses; distinct = distinct abstract input"),
     "C05": dict(families=["REQ"], groups=["ack", "req"], level="model_checking", exhaustive=True,
                 rule="every grid point (protocol id x attribute type x attribute values x pre-action) is one packet, executed once with recording wrappers around the real bridge servers and once through the simapp wiring; non-trivial = a successful transfer (request compared) or a mismatched/unrouted payload (must be refused); distinct = distinct abstract input x wiring"),
@@ -139,7 +151,7 @@ PROPS = {
                 rule="non-trivial = a transfer with a parseable payload received while some protocol/destination is paused, or a pause/unpause message; distinct = distinct (pre-state, input)"),
     "C09": dict(families=["PAUSE"], groups=["ack", "pause"], level="model_checking",
                 rule="non-trivial = a transfer with a parseable payload received while some action is paused, or a pause/unpause-action message; distinct = distinct (pre-state, input)"),
-    "C10": dict(families=["PAUSE"], groups=["ack", "pause", "params", "stats", "bal"], level="model_checking",
+    "C10": dict(families=["PAUSE", "AUTHMOD"], groups=["ack", "pause", "params", "stats", "bal"], level="model_checking",
                 rule="non-trivial = any authority message (every RPC x signer class x body class); distinct = distinct (pre-state, input)"),
     "C18": dict(families=["PAUSE", "DUST"], groups=["ack", "params"], level="model_checking",
                 rule="non-trivial = a transfer with a non-empty passthrough payload, or an UpdateParams message; distinct = distinct (pre-state, input)"),
